@@ -292,6 +292,14 @@ func init() {
 							if s.Tok == token.ADD_ASSIGN && len(s.Lhs) == 1 && isCount(c, s.Lhs[0]) && lenOfDeep(grpTxs)(c, s.Rhs[0]) {
 								counted = true
 							}
+							// size += helper(group.Txs), where the helper sums Size() over every element of its argument
+							if s.Tok == token.ADD_ASSIGN && len(s.Lhs) == 1 && len(s.Rhs) == 1 && isSize(c, s.Lhs[0]) {
+								if call, ok := ast.Unparen(s.Rhs[0]).(*ast.CallExpr); ok && len(call.Args) == 1 && grpTxs(c, call.Args[0]) {
+									if h := r.W.FuncOf(core.Callee(c.Info, call)); h != nil && sumsSizeOverParam(h) {
+										sized = true
+									}
+								}
+							}
 							if len(core.StoresTo(c, s, "types.Block.Txs")) > 0 && len(s.Rhs) == 1 {
 								if call, ok := s.Rhs[0].(*ast.CallExpr); ok && call.Ellipsis.IsValid() && len(call.Args) == 2 {
 									if _, isSlice := ast.Unparen(call.Args[1]).(*ast.SliceExpr); !isSlice && grpTxs(c, call.Args[1]) {
@@ -483,4 +491,41 @@ func mentionsIdent(c *core.Ctx, e ast.Expr, o types.Object) bool {
 		return !found
 	})
 	return found
+}
+
+// sumsSizeOverParam: h walks every element of its first parameter (range, or an index loop from 0) adding
+// a Size() to an accumulator, and returns that accumulator.
+func sumsSizeOverParam(h *core.FuncInfo) bool {
+	c := h.Ctx()
+	var acc types.Object
+	for _, lp := range core.LoopsIn(h) {
+		if !core.CountsOver(core.IsObj("param:0"), 0)(c, lp) {
+			continue
+		}
+		ast.Inspect(lp, func(y ast.Node) bool {
+			if as, ok := y.(*ast.AssignStmt); ok && as.Tok == token.ADD_ASSIGN && len(as.Lhs) == 1 && len(as.Rhs) == 1 {
+				if id, ok := ast.Unparen(as.Lhs[0]).(*ast.Ident); ok && core.CallsAny("types.(*Transaction).Size", "types.Size", "google.golang.org/protobuf/proto.Size", "github.com/golang/protobuf/proto.Size")(c, as.Rhs[0]) {
+					acc = c.Info.ObjectOf(id)
+				}
+			}
+			return true
+		})
+	}
+	if acc == nil {
+		return false
+	}
+	for _, ret := range h.Graph().Returns() {
+		rs, ok := ret.Ast.(*ast.ReturnStmt)
+		if !ok {
+			continue
+		}
+		if len(rs.Results) == 1 {
+			if id, ok := ast.Unparen(rs.Results[0]).(*ast.Ident); ok && c.Info.ObjectOf(id) == acc {
+				return true
+			}
+		} else if len(rs.Results) == 0 && h.Sig().Results().Len() == 1 && types.Object(h.Sig().Results().At(0)) == acc {
+			return true
+		}
+	}
+	return false
 }
